@@ -1502,6 +1502,11 @@ void DecodeZ80SYNTAX(Word Code) {
 
         StrCompMkTemp(&TmpComp, Z80SyntaxName, 0);
         NLS_UpString(ArgStr[1].str.p_str);
+
+        /* Z80SYNTAX is the global predefined symbol, also when the statement
+           stands in a macro or loop body: */
+
+        PushLocHandle(-1);
         if (!as_strcasecmp(ArgStr[1].str.p_str, "OFF")) {
             CurrZ80Syntax = eSyntax808x;
             EnterIntSymbol(&TmpComp, 0, SegNone, True);
@@ -1514,6 +1519,7 @@ void DecodeZ80SYNTAX(Word Code) {
         } else {
             WrStrErrorPos(ErrNum_InvArg, &ArgStr[1]);
         }
+        PopLocHandle();
     }
 }
 
